@@ -14,9 +14,22 @@ mkdir -p /verif/evidence
 LIMIT=900; [ "$TIER" = thorough ] && LIMIT=3300
 EXTRA=""
 [ -f "/verif/harness/$ID/args.$TIER" ] && EXTRA="$(cat /verif/harness/$ID/args.$TIER)"
+if [ -f "/verif/harness/$ID/parts.txt" ]; then
+  # a property whose code lives in several Go modules: one gosym run per part, evidence merged
+  rc=0
+  PARTS=$(cat "/verif/harness/$ID/parts.txt")
+  for part in $PARTS; do
+    timeout -k 10 $LIMIT /verif/bin/gosym run -id "$ID" -harness "/verif/harness/$ID/$part" -tier "$TIER" \
+       -evidence "/verif/evidence/$ID.$part.json" $EXTRA
+    r=$?
+    [ $r -ne 0 ] && rc=$r
+  done
+  python3 /verif/merge_evidence.py "$ID" $PARTS
+else
 timeout -k 10 $LIMIT /verif/bin/gosym run -id "$ID" -harness "/verif/harness/$ID" -tier "$TIER" \
    -evidence "/verif/evidence/$ID.json" $EXTRA
 rc=$?
+fi
 if [ $rc -eq 124 ] || [ $rc -eq 137 ]; then
   echo "INCONCLUSIVE property=$ID reason=wall-clock limit ${LIMIT}s reached"
   python3 - "$ID" "$TIER" "$LIMIT" <<'PY'
